@@ -118,3 +118,581 @@ Example group_example :
   group_run [proper [1%Z]; []; proper [2%Z; 3%Z]] [2; 0; 1] = Some (proper [1%Z; 2%Z; 3%Z])
   /\ group_run [proper [1%Z]; []; proper [2%Z; 3%Z]] [2; 0] = None.
 Proof. split; reflexivity. Qed.
+
+(* ================================================================== *)
+(* (ii-a) UDP frontend                                                 *)
+(* ================================================================== *)
+
+
+Definition serve_active (sv : spc) : nat := match sv with SCheck | SRead => 1 | _ => 0 end.
+
+Definition uinv (tracked : bool) (s : ustate) : Prop :=
+  u_wg s = serve_active (u_serve s) + u_handlers s + (if tracked then u_hooks s else 0)
+  /\ u_fatal s = false
+  /\ match u_stop s with
+     | TSock | TDone => u_serve s <> SRead /\ u_handlers s = 0 /\ (tracked = true -> u_hooks s = 0)
+     | _ => True
+     end.
+
+Lemma uinv_init : forall tracked, uinv tracked uinit.
+Proof. intros []; repeat split; cbn; auto. Qed.
+
+Ltac nz :=
+  repeat match goal with
+  | H : context [?n =? 0] |- _ => is_var n; destruct n; cbn in H
+  | |- context [?n =? 0] => is_var n; destruct n; cbn
+  end.
+
+Lemma uinv_step : forall tracked a s, uinv tracked s -> uinv tracked (ustep tracked a s).
+Proof.
+  intros tracked a [t sv w ib h hk f] (I1 & I2 & I3). unfold ustep.
+  destruct (negb (uenabled a (MkU t sv w ib h hk f))) eqn:EN; [repeat split; auto|].
+  apply negb_false_iff in EN. unfold uinv in *. cbn [u_wg u_serve u_handlers u_hooks u_fatal u_stop] in *.
+  subst f.
+  destruct a as [| |hook| |].
+  - (* packet *) cbn. split; [exact I1 | split; [reflexivity | exact I3]].
+  - (* serve *)
+    destruct sv; cbn in EN |- *.
+    + destruct t; cbn in *; repeat split; try lia; try tauto; try congruence.
+    + unfold u_closing; cbn. destruct t; cbn in *; subst w; cbn; repeat split; try lia; try tauto; try congruence.
+    + unfold u_sock, u_deadline in *; cbn in *.
+      destruct t; cbn in *; try (exfalso; tauto); subst w; cbn; repeat split; try lia; try tauto; try congruence.
+    + discriminate.
+  - (* handler *)
+    cbn in EN. destruct h as [|h']; [discriminate|]. cbn [pred].
+    destruct w as [|w0]; [exfalso; lia|].
+    destruct hook, tracked; cbn in *;
+      destruct t; cbn in *; repeat split; try lia; try tauto; try congruence.
+  - (* hook *)
+    cbn in EN. destruct hk as [|hk']; [discriminate|]. cbn [pred].
+    destruct tracked; cbn in *.
+    + destruct w as [|w0]; [exfalso; lia|]. cbn.
+      destruct t; cbn in *; repeat split; try lia; try tauto; try congruence;
+        destruct I3 as (? & ? & I3); specialize (I3 eq_refl); discriminate.
+    + destruct t; cbn in *; repeat split; try lia; try tauto; try congruence.
+  - (* stop *)
+    destruct t; cbn in EN |- *; try discriminate; repeat split; try lia; try tauto; try congruence.
+    all: apply Nat.eqb_eq in EN; subst w; destruct sv; cbn in *; try lia; try congruence.
+    all: destruct tracked; intros; try congruence; lia.
+Qed.
+
+Lemma uinv_run : forall tracked sched s, uinv tracked s -> uinv tracked (urun tracked sched s).
+Proof.
+  intros tracked sched. unfold urun. induction sched as [|a r IH]; intros s H; cbn; auto.
+  apply IH, uinv_step, H.
+Qed.
+
+Lemma uinv_reach : forall tracked sched, uinv tracked (urun tracked sched uinit).
+Proof. intros. apply uinv_run, uinv_init. Qed.
+
+Lemma uinv_quiescent : forall s, uinv true s -> u_stop s = TDone -> u_quiescent s.
+Proof.
+  intros [t sv w ib h hk f] (I1 & I2 & I3) E. cbn in *. subst t.
+  unfold u_quiescent. cbn. intuition.
+Qed.
+
+Lemma udp_stop_quiescent : forall sched,
+  let s := urun true sched uinit in u_stop s = TDone -> u_quiescent s.
+Proof. intros sched s. apply uinv_quiescent, uinv_reach. Qed.
+
+Lemma udone_stable : forall tracked a s, u_stop s = TDone -> u_stop (ustep tracked a s) = TDone.
+Proof.
+  intros tracked a [t sv w ib h hk f] E. cbn in E. subst t. unfold ustep.
+  destruct (negb (uenabled a _)); auto.
+  destruct a; cbn; auto.
+  - destruct sv; cbn; auto. destruct (wg_done w f); auto. destruct (wg_done w f); auto.
+  - destruct (wg_done _ f); auto.
+  - destruct tracked; auto. destruct (wg_done w f); auto.
+Qed.
+
+Lemma udone_stable_run : forall tracked sched s, u_stop s = TDone -> u_stop (urun tracked sched s) = TDone.
+Proof.
+  intros tracked sched. unfold urun. induction sched as [|a r IH]; intros s H; cbn; auto.
+  apply IH, udone_stable, H.
+Qed.
+
+Lemma quiescent_silent : forall s a, u_quiescent s -> uobservable a s = false.
+Proof.
+  intros [t sv w ib h hk f] a (Q1 & Q2 & Q3 & Q4). cbn in *. subst h hk.
+  unfold uobservable. destruct a; cbn; auto using andb_false_r.
+  destruct sv; auto using andb_false_r. congruence.
+Qed.
+
+(* nothing observable happens at or after the delivery of Stop's result *)
+Lemma udp_silent_after_stop : forall sched more a,
+  let s := urun true sched uinit in
+  u_stop s = TDone -> uobservable a (urun true more s) = false.
+Proof.
+  intros sched more a s E. apply quiescent_silent, uinv_quiescent.
+  - apply uinv_run, uinv_reach.
+  - apply udone_stable_run, E.
+Qed.
+
+(* the explicit panics / log.Fatal sites of the protocol are unreachable, in both variants *)
+Lemma udp_never_fatal : forall tracked sched, u_fatal (urun tracked sched uinit) = false.
+Proof. intros. apply (uinv_reach tracked sched). Qed.
+
+(* a handler always finds the socket open for its response *)
+Lemma udp_handler_has_socket : forall tracked sched,
+  let s := urun tracked sched uinit in u_handlers s <> 0 -> u_sock s = true.
+Proof.
+  intros tracked sched s H. destruct (uinv_reach tracked sched) as (_ & _ & I3). fold s in I3.
+  unfold u_sock. destruct (u_stop s); auto. tauto.
+Qed.
+
+Definition tpc_eq_dec : forall a b : tpc, {a = b} + {a <> b}.
+Proof. decide equality. Defined.
+
+(* ---- termination *)
+Lemma udp_stop_progress : forall s,
+  uinv true s -> u_stop s <> TIdle -> u_stop s <> TDone ->
+  exists a, usys a = true /\ uenabled a s = true.
+Proof.
+  intros [t sv w ib h hk f] (I1 & I2 & I3) N1 N2. cbn in *.
+  destruct t; try congruence; try (exists UStop; split; reflexivity).
+  (* TWait *)
+  destruct w as [|w0]; [exists UStop; split; reflexivity|].
+  destruct h as [|h']; [|exists (UHandler true); split; reflexivity].
+  destruct hk as [|hk']; [|exists UHook; split; reflexivity].
+  destruct sv; cbn in I1; try lia; exists UServe; split; reflexivity.
+Qed.
+
+Lemma udp_stop_decreases : forall tracked a s,
+  u_closing s = true -> usys a = true -> uenabled a s = true ->
+  umeasure (ustep tracked a s) < umeasure s /\ u_closing (ustep tracked a s) = true.
+Proof.
+  intros tracked a [t sv w ib h hk f] C S EN. unfold ustep. rewrite EN. cbn [negb].
+  unfold u_closing in *. cbn in C.
+  destruct a; cbn in S; try discriminate.
+  - destruct sv; cbn in EN |- *; try discriminate.
+    + destruct t; try discriminate; cbn; split; auto; lia.
+    + unfold u_closing; cbn. destruct t; try discriminate; cbn; destruct (wg_done w f); cbn; split; auto; lia.
+    + unfold u_sock, u_deadline; cbn. destruct t; try discriminate; cbn; try destruct (wg_done w f); cbn; split; auto; lia.
+  - cbn in EN. destruct h; [discriminate|]. destruct (wg_done _ f). cbn. destruct hook; destruct t; try discriminate; cbn; split; auto; lia.
+  - cbn in EN. destruct hk; [discriminate|]. destruct tracked; [destruct (wg_done w f)|]; cbn; destruct t; try discriminate; cbn; split; auto; lia.
+  - destruct t; try discriminate; cbn in *; split; auto; lia.
+Qed.
+
+(* run a schedule of component steps, each of which must be enabled *)
+Fixpoint urun_sys (tracked : bool) (sched : list uact) (s : ustate) : option ustate :=
+  match sched with
+  | [] => Some s
+  | a :: r => if usys a && uenabled a s then urun_sys tracked r (ustep tracked a s) else None
+  end.
+
+Lemma urun_sys_run : forall tracked sched s s', urun_sys tracked sched s = Some s' -> s' = urun tracked sched s.
+Proof.
+  intros tracked sched. induction sched as [|a r IH]; intros s s' H; cbn in *; [congruence|].
+  destruct (usys a && uenabled a s); [|discriminate]. apply IH, H.
+Qed.
+
+(* no livelock: once `closing` is closed the component can take at most umeasure more steps *)
+Lemma udp_stop_bounded : forall tracked sched s s',
+  u_closing s = true -> urun_sys tracked sched s = Some s' -> length sched + umeasure s' <= umeasure s.
+Proof.
+  intros tracked sched. induction sched as [|a r IH]; intros s s' C H; cbn in *.
+  - inversion H; subst; lia.
+  - destruct (usys a) eqn:S; [|discriminate]. destruct (uenabled a s) eqn:EN; [|discriminate]. cbn in H.
+    destruct (udp_stop_decreases tracked a s C S EN) as (D & C').
+    specialize (IH _ _ C' H). lia.
+Qed.
+
+(* no deadlock: from every reachable state in which Stop has been called, the
+   component alone (whatever the environment did so far) reaches the delivery *)
+Lemma udp_stop_completes_aux : forall n s,
+  umeasure s <= n -> uinv true s -> u_closing s = true ->
+  exists sched s', urun_sys true sched s = Some s' /\ u_stop s' = TDone.
+Proof.
+  induction n as [|n IH]; intros s M I C.
+  - assert (E : u_stop s = TDone).
+    { unfold umeasure, u_closing in *. destruct (u_stop s); try discriminate; auto; lia. }
+    exists [], s. split; auto.
+  - destruct (tpc_eq_dec (u_stop s) TDone) as [E|N].
+    + exists [], s. split; auto.
+    + assert (N1 : u_stop s <> TIdle) by (unfold u_closing in C; destruct (u_stop s); congruence).
+      destruct (udp_stop_progress s I N1 N) as (a & S & EN).
+      destruct (udp_stop_decreases true a s C S EN) as (D & C').
+      destruct (IH (ustep true a s)) as (sched & s' & R & E); try lia; auto using uinv_step.
+      exists (a :: sched), s'. cbn. rewrite S, EN. cbn. auto.
+Qed.
+
+Lemma udp_stop_terminates : forall sched,
+  let s := urun true sched uinit in
+  u_stop s <> TIdle ->
+  (exists more s', urun_sys true more s = Some s' /\ u_stop s' = TDone) /\
+  (u_closing s = true -> forall more s', urun_sys true more s = Some s' -> length more <= umeasure s).
+Proof.
+  intros sched s N. pose proof (uinv_reach true sched) as I. fold s in I. split.
+  - destruct (u_closing s) eqn:C.
+    + eapply udp_stop_completes_aux; eauto.
+    + assert (E : u_stop s = TClose) by (unfold u_closing in C; destruct (u_stop s); congruence).
+      assert (EN : uenabled UStop s = true) by (unfold uenabled; rewrite E; auto).
+      assert (C' : u_closing (ustep true UStop s) = true).
+      { destruct s as [t sv w ib h hk f]. cbn in E. subst t. reflexivity. }
+      destruct (udp_stop_completes_aux _ (ustep true UStop s) (le_n _) (uinv_step _ _ _ I) C') as (more & s' & R & D).
+      exists (UStop :: more), s'. cbn [urun_sys usys andb]. rewrite EN. auto.
+  - intros C more s' R. pose proof (udp_stop_bounded _ _ _ _ C R). lia.
+Qed.
+
+(* ---- the code before F7 *)
+Lemma udp_afterhook_outlives_stop_refuted :
+  exists sched, let s := urun false sched uinit in
+    u_stop s = TDone /\ u_hooks s = 1 /\ uobservable UHook s = true.
+Proof.
+  exists [UServe; UServe; UPacket; UServe; UHandler true; UStop; UStop; UStop; UServe; UServe; UStop; UStop].
+  vm_compute. auto.
+Qed.
+
+(* ================================================================== *)
+(* (ii-b) HTTP frontend                                                *)
+(* ================================================================== *)
+
+
+Definition hinv (s : hstate) : Prop :=
+  h_missed s = false /\ h_fatal s = false /\ h_serve s <> HNew
+  /\ h_wg s = (match h_serve s with HExit => 0 | _ => 1 end) + h_hooks s
+  /\ (h_serve s = HExit -> h_lopen s = false /\ h_shutdown s = true)
+  /\ (h_shutdown s = true -> h_serve s = HServing -> h_lopen s = false)
+  /\ match h_stop s with
+     | HTWait => h_handlers s = 0
+     | HTDone => h_handlers s = 0 /\ h_wg s = 0
+     | _ => True
+     end.
+
+Lemma hinv_init : hinv (hinit true).
+Proof. unfold hinv; cbn. intuition congruence. Qed.
+
+Lemma hinv_step : forall a s, hinv s -> hinv (hstep true a s).
+Proof.
+  intros a [t sv ms lo bl h hk w f] (I1 & I2 & I3 & I4 & I5 & I6 & I7). unfold hstep.
+  destruct (negb (henabled a _)) eqn:EN; [unfold hinv; intuition|].
+  apply negb_false_iff in EN. unfold hinv in *. cbn [h_stop h_serve h_missed h_lopen h_backlog h_handlers h_hooks h_wg h_fatal] in *.
+  subst ms f. unfold h_shutdown in *. cbn [h_stop h_missed negb andb] in *.
+  destruct a as [| |hook| |].
+  - destruct lo; cbn; intuition.
+  - destruct sv; try congruence; cbn in EN |- *.
+    + destruct t; cbn in *; try (destruct w as [|w0]; [exfalso; lia|]); cbn; intuition (try congruence; try lia).
+    + destruct t; cbn in *; try (destruct w as [|w0]; [exfalso; lia|]); cbn; intuition (try congruence; try lia).
+    + discriminate.
+  - cbn in EN. destruct h as [|h']; [discriminate|]. cbn.
+    destruct hook; destruct t; cbn in *; intuition (try congruence; try lia).
+  - cbn in EN. destruct hk as [|hk']; [discriminate|]. cbn.
+    destruct w as [|w0]; [exfalso; destruct sv; lia|]. cbn.
+    destruct t; cbn in *; intuition (try congruence; try lia).
+  - destruct t; cbn in EN |- *; try discriminate.
+    + destruct sv; cbn; intuition (try congruence; try lia).
+    + destruct sv; cbn in *; intuition (try congruence; try lia).
+    + apply Nat.eqb_eq in EN. intuition (try congruence; try lia).
+    + apply Nat.eqb_eq in EN. intuition (try congruence; try lia).
+Qed.
+
+Lemma hinv_run : forall sched s, hinv s -> hinv (hrun true sched s).
+Proof.
+  intros sched. unfold hrun. induction sched as [|a r IH]; intros s H; cbn; auto.
+  apply IH, hinv_step, H.
+Qed.
+
+Lemma hinv_reach : forall sched, hinv (hrun true sched (hinit true)).
+Proof. intros. apply hinv_run, hinv_init. Qed.
+
+Lemma hinv_quiescent : forall s, hinv s -> h_stop s = HTDone -> h_quiescent s.
+Proof.
+  intros [t sv ms lo bl h hk w f] (I1 & I2 & I3 & I4 & I5 & I6 & I7) E. cbn in *. subst t.
+  destruct I7 as (-> & ->). unfold h_quiescent. cbn.
+  assert (sv = HExit) by (destruct sv; auto; lia). subst sv.
+  destruct (I5 eq_refl). intuition lia.
+Qed.
+
+Lemma http_stop_quiescent : forall sched,
+  let s := hrun true sched (hinit true) in h_stop s = HTDone -> h_quiescent s.
+Proof. intros sched s. apply hinv_quiescent, hinv_reach. Qed.
+
+Lemma hdone_stable : forall fixed a s, h_stop s = HTDone -> h_stop (hstep fixed a s) = HTDone.
+Proof.
+  intros fixed a [t sv ms lo bl h hk w f] E. cbn in E. subst t. unfold hstep.
+  destruct (negb (henabled a _)); auto.
+  destruct a; cbn; auto.
+  - destruct lo; auto.
+  - destruct sv; cbn; auto; destruct (h_shutdown _); cbn; auto; destruct fixed; auto; destruct (wg_done w f); auto.
+  - destruct fixed; auto. destruct (wg_done w f); auto.
+Qed.
+
+Lemma hdone_stable_run : forall fixed sched s, h_stop s = HTDone -> h_stop (hrun fixed sched s) = HTDone.
+Proof.
+  intros fixed sched. unfold hrun. induction sched as [|a r IH]; intros s H; cbn; auto.
+  apply IH, hdone_stable, H.
+Qed.
+
+Lemma hquiescent_silent : forall s a, h_quiescent s -> hobservable a s = false.
+Proof.
+  intros [t sv ms lo bl h hk w f] a (Q1 & Q2 & Q3 & Q4). cbn in *. subst h hk sv.
+  unfold hobservable. destruct a; cbn; auto using andb_false_r.
+Qed.
+
+Lemma http_silent_after_stop : forall sched more a,
+  let s := hrun true sched (hinit true) in
+  h_stop s = HTDone -> hobservable a (hrun true more s) = false.
+Proof.
+  intros sched more a s E. apply hquiescent_silent, hinv_quiescent.
+  - apply hinv_run, hinv_reach.
+  - apply hdone_stable_run, E.
+Qed.
+
+Lemma http_never_fatal : forall sched, h_fatal (hrun true sched (hinit true)) = false.
+Proof. intros. apply (hinv_reach sched). Qed.
+
+(* the fixed Stop never misses the server *)
+Lemma http_stop_never_misses : forall sched, h_missed (hrun true sched (hinit true)) = false.
+Proof. intros. apply (hinv_reach sched). Qed.
+
+Definition htpc_eq_dec : forall a b : htpc, {a = b} + {a <> b}.
+Proof. decide equality. Defined.
+
+Lemma http_stop_progress : forall s,
+  hinv s -> h_stop s <> HTIdle -> h_stop s <> HTDone ->
+  exists a, hsys a = true /\ henabled a s = true.
+Proof.
+  intros [t sv ms lo bl h hk w f] (I1 & I2 & I3 & I4 & I5 & I6 & I7) N1 N2. cbn in *. subst ms.
+  destruct t; try congruence; try (exists HStop; split; reflexivity).
+  - destruct h as [|h']; [exists HStop; split; reflexivity | exists (HHandler true); split; reflexivity].
+  - destruct w as [|w0]; [exists HStop; split; reflexivity|].
+    destruct hk as [|hk']; [|exists HHook; split; reflexivity].
+    destruct sv; cbn in *; try lia; try congruence; exists HServe; split; reflexivity.
+Qed.
+
+Lemma http_stop_decreases : forall fixed a s,
+  h_shutdown s = true -> hsys a = true -> henabled a s = true ->
+  hmeasure (hstep fixed a s) < hmeasure s /\ h_shutdown (hstep fixed a s) = true.
+Proof.
+  intros fixed a [t sv ms lo bl h hk w f] C S EN. unfold hstep. rewrite EN. cbn [negb].
+  unfold h_shutdown in *. cbn in C. apply andb_prop in C. destruct C as (C1 & C2).
+  apply negb_true_iff in C1. subst ms.
+  destruct a; cbn in S; try discriminate.
+  - destruct sv; cbn in EN |- *; try discriminate.
+    + destruct t; try discriminate; cbn; split; auto; lia.
+    + destruct t; try discriminate; cbn; destruct fixed; try destruct (wg_done w f); cbn; split; auto; lia.
+    + destruct t; try discriminate; cbn; destruct fixed; try destruct (wg_done w f); cbn; split; auto; lia.
+  - cbn in EN. destruct h; [discriminate|]. cbn. destruct hook; destruct t; try discriminate; cbn; split; auto; lia.
+  - cbn in EN. destruct hk; [discriminate|]. destruct fixed; [destruct (wg_done w f)|]; cbn; destruct t; try discriminate; cbn; split; auto; lia.
+  - destruct t; try discriminate; cbn in *; destruct fixed; cbn; split; auto; lia.
+Qed.
+
+Fixpoint hrun_sys (fixed : bool) (sched : list hact) (s : hstate) : option hstate :=
+  match sched with
+  | [] => Some s
+  | a :: r => if hsys a && henabled a s then hrun_sys fixed r (hstep fixed a s) else None
+  end.
+
+Lemma http_stop_bounded : forall fixed sched s s',
+  h_shutdown s = true -> hrun_sys fixed sched s = Some s' -> length sched + hmeasure s' <= hmeasure s.
+Proof.
+  intros fixed sched. induction sched as [|a r IH]; intros s s' C H; cbn in *.
+  - inversion H; subst; lia.
+  - destruct (hsys a) eqn:S; [|discriminate]. destruct (henabled a s) eqn:EN; [|discriminate]. cbn in H.
+    destruct (http_stop_decreases fixed a s C S EN) as (D & C').
+    specialize (IH _ _ C' H). lia.
+Qed.
+
+Lemma http_stop_completes_aux : forall n s,
+  hmeasure s <= n -> hinv s -> h_shutdown s = true ->
+  exists sched s', hrun_sys true sched s = Some s' /\ h_stop s' = HTDone.
+Proof.
+  induction n as [|n IH]; intros s M I C.
+  - assert (E : h_stop s = HTDone).
+    { unfold hmeasure, h_shutdown in *. destruct (h_stop s); auto; try lia; rewrite andb_false_r in C; discriminate. }
+    exists [], s. split; auto.
+  - destruct (htpc_eq_dec (h_stop s) HTDone) as [E|N].
+    + exists [], s. split; auto.
+    + assert (N1 : h_stop s <> HTIdle).
+      { unfold h_shutdown in C. destruct (h_stop s); try congruence. rewrite andb_false_r in C. discriminate. }
+      destruct (http_stop_progress s I N1 N) as (a & S & EN).
+      destruct (http_stop_decreases true a s C S EN) as (D & C').
+      destruct (IH (hstep true a s)) as (sched & s' & R & E); try lia; auto using hinv_step.
+      exists (a :: sched), s'. cbn [hrun_sys]. rewrite S, EN. cbn. auto.
+Qed.
+
+Lemma http_stop_terminates : forall sched,
+  let s := hrun true sched (hinit true) in
+  h_stop s <> HTIdle ->
+  (exists more s', hrun_sys true more s = Some s' /\ h_stop s' = HTDone) /\
+  (h_shutdown s = true -> forall more s', hrun_sys true more s = Some s' -> length more <= hmeasure s).
+Proof.
+  intros sched s N. pose proof (hinv_reach sched) as I. fold s in I. split.
+  - destruct (h_shutdown s) eqn:C.
+    + eapply http_stop_completes_aux; eauto.
+    + assert (E : h_stop s = HTShutdown).
+      { destruct I as (M & _). unfold h_shutdown in C. rewrite M in C. destruct (h_stop s); cbn in C; congruence. }
+      assert (EN : henabled HStop s = true) by (unfold henabled; rewrite E; auto).
+      assert (C' : h_shutdown (hstep true HStop s) = true).
+      { destruct I as (M & _). destruct s as [t sv ms lo bl h hk w f]. cbn in E, M. subst t ms. reflexivity. }
+      destruct (http_stop_completes_aux _ (hstep true HStop s) (le_n _) (hinv_step _ _ I) C') as (more & s' & R & D).
+      exists (HStop :: more), s'. cbn [hrun_sys hsys andb]. rewrite EN. auto.
+  - intros C more s' R. pose proof (http_stop_bounded _ _ _ _ C R). lia.
+Qed.
+
+(* ---- the code before F6 / F7 *)
+Lemma http_stop_misses_unassigned_server_refuted :
+  exists sched, let s := hrun false sched (hinit false) in
+    h_stop s = HTDone /\ h_lopen s = true /\ h_serve s = HServing /\ hobservable (HHandler true) s = true.
+Proof. exists [HStop; HServe; HServe; HConn; HServe]. vm_compute. auto. Qed.
+
+Lemma http_afterhook_outlives_stop_refuted :
+  exists sched, let s := hrun false sched (hinit false) in
+    h_stop s = HTDone /\ h_missed s = false /\ h_hooks s = 1 /\ hobservable HHook s = true.
+Proof. exists [HServe; HServe; HConn; HServe; HHandler true; HStop; HStop; HStop]. vm_compute. auto. Qed.
+
+(* ================================================================== *)
+(* (iii-a) frontends + store: nothing uses the store after its Stop    *)
+(* ================================================================== *)
+
+Definition sinv (s : sys) : Prop :=
+  uinv true (sy_u s) /\ hinv (sy_h s) /\ sy_panic s = false
+  /\ (sy_closed s = true -> u_stop (sy_u s) = TDone /\ h_stop (sy_h s) = HTDone).
+
+Lemma utouches_observable : forall a s, utouches a s = true -> uobservable a s = true.
+Proof. intros a s. unfold utouches, uobservable. destruct (uenabled a s), a; cbn; intros; try discriminate; auto. Qed.
+
+Lemma htouches_observable : forall a s, htouches a s = true -> hobservable a s = true.
+Proof. intros a s. unfold htouches, hobservable. destruct (henabled a s), a; cbn; intros; try discriminate; auto. Qed.
+
+Lemma sinv_init : sinv (sysinit true).
+Proof. repeat split; try apply uinv_init; try apply hinv_init; cbn; auto; discriminate. Qed.
+
+Lemma sinv_step : forall a s, sinv s -> sinv (sstep true a s).
+Proof.
+  intros a [u h c p] (IU & IH & IP & IC). cbn in *. subst p. destruct a as [a|a|]; [cbn|cbn|unfold sstep].
+  - split; [apply uinv_step, IU|]. split; auto. split.
+    + destruct c; [|apply andb_false_r]. destruct (IC eq_refl) as (DU & _).
+      destruct (utouches a u) eqn:T; auto. apply utouches_observable in T.
+      rewrite (quiescent_silent u a (uinv_quiescent u IU DU)) in T. discriminate.
+    + intros C. destruct (IC C). split; auto. apply udone_stable; auto.
+  - split; auto. split; [apply hinv_step, IH|]. split.
+    + destruct c; [|apply andb_false_r]. destruct (IC eq_refl) as (_ & DH).
+      destruct (htouches a h) eqn:T; auto. apply htouches_observable in T.
+      rewrite (hquiescent_silent h a (hinv_quiescent h IH DH)) in T. discriminate.
+    + intros C. destruct (IC C). split; auto. apply hdone_stable; auto.
+  - destruct (frontends_stopped (MkS u h c false)) eqn:F.
+    + cbn. split; [exact IU|]. split; [exact IH|]. split; [reflexivity|]. intros _.
+      unfold frontends_stopped in F. cbn in F |- *. destruct (u_stop u), (h_stop h); try discriminate; auto.
+    + split; [exact IU|]. split; [exact IH|]. split; [reflexivity|]. exact IC.
+Qed.
+
+Lemma sinv_run : forall sched s, sinv s -> sinv (srun true sched s).
+Proof.
+  intros sched. unfold srun. induction sched as [|a r IH]; intros s H; cbn; auto.
+  apply IH, sinv_step, H.
+Qed.
+
+(* in EVERY interleaving of both frontends, their traffic, their Stop goroutines
+   and Run.Stop's peerStore.Stop(): no call reaches a stopped store *)
+Lemma no_store_use_after_stop : forall sched, sy_panic (srun true sched (sysinit true)) = false.
+Proof. intros sched. apply (sinv_run sched _ sinv_init). Qed.
+
+(* the store is only ever stopped after both frontends delivered, and then it
+   stays untouched: no store access is even enabled *)
+Lemma store_stopped_implies_quiescent : forall sched,
+  let s := srun true sched (sysinit true) in
+  sy_closed s = true ->
+  u_quiescent (sy_u s) /\ h_quiescent (sy_h s) /\
+  forall a b, utouches a (sy_u s) = false /\ htouches b (sy_h s) = false.
+Proof.
+  intros sched s C. destruct (sinv_run sched _ sinv_init) as (IU & IH & _ & IC). fold s in IU, IH, IC.
+  destruct (IC C) as (DU & DH).
+  pose proof (uinv_quiescent _ IU DU) as QU. pose proof (hinv_quiescent _ IH DH) as QH.
+  split; auto. split; auto. intros a b. split.
+  - destruct (utouches a (sy_u s)) eqn:T; auto. apply utouches_observable in T.
+    rewrite (quiescent_silent _ a QU) in T. discriminate.
+  - destruct (htouches b (sy_h s)) eqn:T; auto. apply htouches_observable in T.
+    rewrite (hquiescent_silent _ b QH) in T. discriminate.
+Qed.
+
+(* F7 on the code before the fix: Stop(everything) completes, the store is
+   stopped, and the late post-response hook then calls into it *)
+Lemma afterhook_outlives_stop_refuted :
+  exists sched, let s := srun false sched (sysinit false) in
+    sy_closed s = true /\ sy_panic s = true.
+Proof.
+  exists (map AU [UServe; UServe; UPacket; UServe; UHandler true; UStop; UStop; UStop; UServe; UServe; UStop; UStop]
+          ++ [AH HStop; AStopStore; AU UHook]).
+  vm_compute. auto.
+Qed.
+
+(* ================================================================== *)
+(* (iii-b) Run: reload                                                 *)
+(* ================================================================== *)
+
+Section RunP.
+  Variables (D Req Resp : Type).
+  Variable handle : D -> Req -> D * Resp.
+  Variable empty : D.
+
+  (* the store handed to the new Start is the very value Run held before: same
+     contents, still open *)
+  Lemma reload_preserves_store : forall (r : runst D) p,
+    r_store r = Some p -> reload D empty [] [] r = Some (MkR true (Some p)).
+  Proof. intros [up st] p E. cbn in *. subst st. reflexivity. Qed.
+
+  Lemma stop_keep_preserves_store : forall (r : runst D),
+    run_stop D empty true [] [] [] r = (MkR false (r_store r), r_store r, false).
+  Proof. reflexivity. Qed.
+
+  (* a failing Stop never leads to serving from a different store: the reload is abandoned *)
+  Lemma reload_error_aborts : forall (r : runst D) fe lg,
+    fe <> [] \/ lg <> [] -> reload D empty fe lg r = None.
+  Proof. intros r [|x fe] [|y lg] [H|H]; try congruence; reflexivity. Qed.
+
+  Lemma stop_all_stops_store : forall (r : runst D),
+    run_stop D empty false [] [] [] r = (MkR false None, None, false).
+  Proof. reflexivity. Qed.
+
+  Definition serving (r : runst D) : Prop := r_up r = true /\ exists p, r_store r = Some p /\ p_closed p = false.
+
+  Lemma reload_noop : forall r, serving r -> reload D empty [] [] r = Some r.
+  Proof. intros [up st] (U & p & S & C). cbn in *. subst. reflexivity. Qed.
+
+  Lemma serve_req_serving : forall r q, serving r ->
+    serving (fst (serve_req D Req Resp handle r q)) /\ exists a, snd (serve_req D Req Resp handle r q) = Answer a.
+  Proof.
+    intros [up st] q (U & [c d] & S & C). cbn in *. subst. unfold serve_req. cbn.
+    destruct (handle d q) as [d' a]. cbn. split; eauto. split; eauto.
+  Qed.
+
+  (* a reload at ANY point of ANY request history changes no answer and no contents *)
+  Lemma reload_transparent : forall es r, serving r ->
+    run_events D Req Resp handle empty es r = run_events D Req Resp handle empty (requests_of es) r.
+  Proof.
+    induction es as [|[q|] es IH]; intros r S; cbn; auto.
+    - destruct (serve_req D Req Resp handle r q) as [r' o] eqn:E.
+      pose proof (serve_req_serving r q S) as (S' & _). rewrite E in S'. cbn in S'.
+      rewrite IH by auto. reflexivity.
+    - rewrite reload_noop by auto. apply IH, S.
+  Qed.
+
+  Lemma start_serving : serving (run_start D empty None).
+  Proof. split; cbn; eauto. Qed.
+
+  (* ... and every request of the history is answered (no store panic, no refusal) *)
+  Lemma reload_history_all_answered : forall es r, serving r ->
+    exists rf os, run_events D Req Resp handle empty es r = Some (rf, os) /\ serving rf /\
+                  Forall (fun o => exists a, o = Answer a) os.
+  Proof.
+    induction es as [|[q|] es IH]; intros r S; cbn.
+    - exists r, []. auto.
+    - destruct (serve_req D Req Resp handle r q) as [r' o] eqn:E.
+      pose proof (serve_req_serving r q S) as (S' & a & A). rewrite E in S', A. cbn in S', A.
+      destruct (IH r' S') as (rf & os & R & SF & F). rewrite R. exists rf, (o :: os). repeat split; auto.
+      constructor; eauto.
+    - rewrite reload_noop by auto. apply IH, S.
+  Qed.
+
+  (* once everything including the store has been stopped, nothing is served from it *)
+  Lemma stopped_run_serves_nothing : forall (r : runst D) q,
+    let '(r', _, _) := run_stop D empty false [] [] [] r in
+    snd (serve_req D Req Resp handle r' q) = NotServing.
+  Proof. intros r q. reflexivity. Qed.
+End RunP.
+
+Example reload_example :
+  run_events nat nat nat (fun d q => (d + q, d + q)) 0 [EReq 1; EReq 2; EReload; EReq 3; EReload; EReload; EReq 4] (run_start nat 0 None)
+  = Some (MkR true (Some (MkP false 10)), [Answer 1; Answer 3; Answer 6; Answer 10]).
+Proof. reflexivity. Qed.
